@@ -140,6 +140,7 @@ type cluster struct {
 	nResizes int
 	nTicks   int
 	failFold bool
+	failXfer bool // the next snapshot-file transfer of the sync agent dies half way (the sender exits non-zero)
 	pendingCleaner int
 	cleanerTick map[int]chan time.Time
 	attachAt map[int]int // be seq -> number of writes issued when it was attached
